@@ -96,6 +96,11 @@ package client
 //@           backendsEq(chanState(regLookup(&c.channels, proposal.Parent)).Backends, proposal.InitBals.Backends) &&
 //@           balancesGE(chanState(regLookup(&c.channels, proposal.Parent)).Balances, proposal.InitBals.Balances)
 
+// virtFundsCovered(pb, vb, m): for every asset, the parent position that a virtual participant is mapped to holds at least that
+// participant's initial balance (for two participants mapped to the same position the later one counts, as in transformBalances).
+//@ pred virtFundsCovered(pb channel.Balances, vb channel.Balances, m []channel.Index) = forall a int :: {vb[a]} 0 <= a && a < len(vb) ==>
+//@   val(pb[a][m[1]]) >= val(vb[a][1]) && (m[0] != m[1] ==> val(pb[a][m[0]]) >= val(vb[a][0]))
+
 // Virtual channel: parent list and index maps of the right size, own parent known with the same assets/backends,
 // funding agreement equal to the initial balances, index map entries in range, remapped balances covered by the parent.
 //@ func (*Client).validVirtualChannelProposal
@@ -105,6 +110,7 @@ package client
 //@           regLookup(&c.channels, prop.Parents[ourIdx]) != nil &&
 //@           assetsEq(chanState(regLookup(&c.channels, prop.Parents[ourIdx])).Assets, prop.InitBals.Assets) &&
 //@           backendsEq(chanState(regLookup(&c.channels, prop.Parents[ourIdx])).Backends, prop.InitBals.Backends)
+//@   ensures result == nil ==> virtFundsCovered(chanState(regLookup(&c.channels, prop.Parents[ourIdx])).Balances, prop.InitBals.Balances, prop.IndexMaps[ourIdx])
 //@   loop 1
 //@     invariant forall k int :: 0 <= k && k < $i ==> indexMap[k] < numPeers
 
@@ -131,7 +137,9 @@ package client
 //@           twoPartyOK(c, &as(proposal, "*VirtualChannelProposalMsg").BaseChannelProposal, as(proposal, "*VirtualChannelProposalMsg").Peers, ourIdx, peerAddr) &&
 //@           len(as(proposal, "*VirtualChannelProposalMsg").Parents) == 2 && len(as(proposal, "*VirtualChannelProposalMsg").IndexMaps) == 2 &&
 //@           balancesEq(as(proposal, "*VirtualChannelProposalMsg").InitBals.Balances, as(proposal, "*VirtualChannelProposalMsg").FundingAgreement) &&
-//@           regLookup(&c.channels, as(proposal, "*VirtualChannelProposalMsg").Parents[ourIdx]) != nil) &&
+//@           regLookup(&c.channels, as(proposal, "*VirtualChannelProposalMsg").Parents[ourIdx]) != nil &&
+//@           virtFundsCovered(chanState(regLookup(&c.channels, as(proposal, "*VirtualChannelProposalMsg").Parents[ourIdx])).Balances,
+//@             as(proposal, "*VirtualChannelProposalMsg").InitBals.Balances, as(proposal, "*VirtualChannelProposalMsg").IndexMaps[ourIdx])) &&
 //@   (istype(proposal, "*SubChannelProposalMsg") ==>
 //@           baseValid(&as(proposal, "*SubChannelProposalMsg").BaseChannelProposal) && ourIdx <= 1 &&
 //@           regLookup(&c.channels, as(proposal, "*SubChannelProposalMsg").Parent) != nil &&
